@@ -532,3 +532,111 @@ def valid_import_graph(rng):
     main += f"struct Top:\n  0 [+{info[last][4]}]  m{last}.{info[last][1]}  body\n  let k = body.kind\n"
     files["m.emb"] = main
     return files, "m.emb", ["valid", "imports", "import_graph"]
+
+
+# ---------------------------------------------------------------------------
+# random derivations from the real grammar (compiler/front_end/module_ir.PRODUCTIONS)
+
+_GRAMMAR = {}
+
+
+def _grammar():
+    """{nonterminal: [rhs tuples]}, and the minimal derivation depth of every symbol."""
+    from simlib import core
+
+    if core.REPO in _GRAMMAR:
+        return _GRAMMAR[core.REPO]
+    import sys
+
+    if core.REPO not in sys.path:
+        sys.path.insert(0, core.REPO)
+    from compiler.front_end import module_ir
+
+    prods = {}
+    for p in module_ir.PRODUCTIONS:
+        prods.setdefault(p.lhs, []).append(tuple(p.rhs))
+    depth = {}
+    changed = True
+    while changed:
+        changed = False
+        for lhs, alts in prods.items():
+            best = None
+            for rhs in alts:
+                if all((s not in prods) or (s in depth) for s in rhs):
+                    d = 1 + max([depth[s] for s in rhs if s in prods] or [0])
+                    best = d if best is None else min(best, d)
+            if best is not None and depth.get(lhs) != best:
+                depth[lhs] = best
+                changed = True
+    _GRAMMAR[core.REPO] = (prods, depth)
+    return _GRAMMAR[core.REPO]
+
+
+_SNAKE = ["a", "b", "c", "x", "y", "len", "kind", "cpp", "byte_order", "requires", "text_output", "namespace", "this"]
+_CAMEL = ["Foo", "Bar", "Baz", "UInt", "Int", "Flag", "Bcd", "Float", "Kind"]
+_SHOUTY = ["AA", "BB", "CC", "LITTLE"]
+
+
+def _terminal_text(rng, sym):
+    if sym.startswith('"') and sym.endswith('"'):
+        return sym[1:-1].replace("\\n", "\n")
+    if sym == "SnakeWord":
+        return rng.choice(_SNAKE)
+    if sym == "CamelWord":
+        return rng.choice(_CAMEL)
+    if sym == "ShoutyWord":
+        return rng.choice(_SHOUTY)
+    if sym == "Number":
+        return rng.choice(["0", "1", "2", "4", "8", "16", "0x10", "0b101", "1_000", "255", "18446744073709551615", "18446744073709551616"])
+    if sym == "String":
+        return rng.choice(['"LittleEndian"', '"BigEndian"', '"Null"', '"x"', '"a::b"', '"Skip"', '""', '"kCamelCase"'] + ['"lib.emb"'] * 6)
+    if sym == "BooleanConstant":
+        return rng.choice(["true", "false"])
+    if sym == "Comment":
+        return rng.choice(["# c", "#", "# [x: 1]"])
+    if sym == "Documentation":
+        return rng.choice(["-- doc", "--", "-- more  doc"])
+    return sym  # Indent / Dedent are handled by the renderer
+
+
+def grammar_derivation(rng):
+    """(files, entry, tags): one module that is a random derivation of the real grammar, rendered back
+    to text: every syntactic form the parser accepts, with names from small pools so that some resolve."""
+    prods, depth = _grammar()
+    budget = [rng.choice([60, 120, 250, 400])]  # expansions before only the shortest alternatives are taken
+    out = []
+
+    def expand(sym, d):
+        if sym not in prods:
+            out.append(sym)
+            return
+        alts = prods[sym]
+        budget[0] -= 1
+        if budget[0] <= 0 or d > 28:
+            m = min(1 + max([depth[s] for s in rhs if s in prods] or [0]) for rhs in alts)
+            alts = [rhs for rhs in alts if 1 + max([depth[s] for s in rhs if s in prods] or [0]) == m]
+        rhs = rng.choice(alts)
+        for s in rhs:
+            expand(s, d + 1)
+
+    expand("module", 0)
+    lines, cur, indent = [], [], 0
+    for sym in out:
+        if sym == "Indent":
+            indent += 1
+        elif sym == "Dedent":
+            indent = max(0, indent - 1)
+        elif sym == '"\\n"':
+            lines.append("  " * indent_at_line_start[0] + " ".join(cur) if cur else "")
+            cur = []
+        else:
+            if not cur:
+                indent_at_line_start = [indent]
+            cur.append(_terminal_text(rng, sym))
+    if cur:
+        lines.append("  " * indent + " ".join(cur))
+    text = "\n".join(lines[:300]) + "\n"
+    files = {"m.emb": text}
+    if "lib.emb" in text:
+        files["lib.emb"] = '[$default byte_order: "LittleEndian"]\nstruct Foo:\n  0 [+1]  UInt  a\nenum Kind:\n  AA = 1\n'
+    return files, "m.emb", ["grammar_derivation"]
